@@ -55,6 +55,9 @@ func cmdVerify(args []string) {
 	slow := fs.Int("slow", 20, "per-obligation timeout of the portfolio pass (s)")
 	jobs := fs.Int("j", 8, "functions verified in parallel")
 	verbose := fs.Bool("v", false, "verbose")
+	unclaimedFile := fs.String("unclaimed", "", "baseline/unclaimed.json: these obligations get the fast pass only")
+	cacheIn := fs.String("cache", "", "proof cache to read (unsat answers by query hash)")
+	cacheOut := fs.String("cacheout", "", "append newly proved query hashes here")
 	fs.Parse(args)
 	t0 := time.Now()
 	P, err := loadProgram(*repo)
@@ -73,6 +76,13 @@ func cmdVerify(args []string) {
 		fmt.Fprintln(os.Stderr, "prelude:", err)
 		os.Exit(2)
 	}
+	if *cacheIn != "" {
+		proofCache.load(*cacheIn)
+	}
+	if *unclaimedFile != "" {
+		loadUnclaimed(*unclaimedFile)
+	}
+	defer proofCache.flush(*cacheOut)
 	if *smtDir == "" {
 		d, _ := os.MkdirTemp("", "slimvc")
 		*smtDir = d
@@ -169,7 +179,38 @@ func cmdVerify(args []string) {
 		data, _ := json.MarshalIndent(rep, "", " ")
 		os.WriteFile(*out, data, 0o644)
 	}
+	proofCache.flush(*cacheOut)
 	if nfail > 0 {
 		os.Exit(1)
 	}
+}
+
+type unclaimedEnt struct {
+	Function string `json:"function"`
+	Kind     string `json:"kind"`
+	Detail   string `json:"detail"`
+}
+
+var unclaimedList []unclaimedEnt
+
+func loadUnclaimed(path string) {
+	data, err := os.ReadFile(path)
+	if err != nil {
+		return
+	}
+	var d struct {
+		Unclaimed []unclaimedEnt `json:"unclaimed"`
+	}
+	if json.Unmarshal(data, &d) == nil {
+		unclaimedList = d.Unclaimed
+	}
+}
+
+func isUnclaimed(o *Obligation) bool {
+	for _, u := range unclaimedList {
+		if u.Function == o.Func && u.Kind == o.Kind && (u.Detail == "" || strings.Contains(o.Detail, u.Detail)) {
+			return true
+		}
+	}
+	return false
 }
